@@ -26,22 +26,30 @@ class Subgrid:
         body = f.body()
         w = walk_function(f.node)
         rets = [e for e in w.events if e.kind == 'return' and e.value is not None]
-        if len(rets) != 1:
-            raise AnalysisError('Grid.subgrid: expected exactly one return')
-        r = w.expand(rets[0].value)
         self.area_param = f.node.args.args[1].arg
-        self.returns_self = any(src(e.value) == 'self' for e in w.events
-                                if e.kind == 'return' and e.value is not None)
-        if not (isinstance(r, ast.Call) and src(r.func) == 'Grid' and len(r.args) == 1):
-            raise AnalysisError(f'Grid.subgrid does not return Grid(<rows>): `{src(r)[:80]}`')
-        rows = r.args[0]
+        self.aliasing_returns = []   # returns that hand out this grid's own storage
+        good = []
+        for e in rets:
+            r = w.expand(e.value)
+            rows = r.args[0] if (isinstance(r, ast.Call) and src(r.func) == 'Grid'
+                                 and len(r.args) == 1) else None
+            if rows is not None and isinstance(rows, ast.ListComp) \
+                    and len(rows.generators) == 1 and isinstance(rows.elt, ast.ListComp) \
+                    and len(rows.elt.generators) == 1:
+                good.append((e, r, rows))
+            else:
+                self.aliasing_returns.append((e, src(r)[:100]))
+        self.returns_self = bool(self.aliasing_returns)
+        if len(good) != 1:
+            if self.aliasing_returns and not good:
+                e, t = self.aliasing_returns[0]
+                raise AnalysisError(
+                    'Grid.subgrid rows are not a nested list comprehension: '
+                    f'`{t}` (outside the grammar; freshness and order unknown)')
+            raise AnalysisError(f'Grid.subgrid: {len(good)} comprehension returns')
+        _, r, rows = good[0]
         self.rows_expr = rows
-        self.fresh_outer = isinstance(rows, ast.ListComp)
-        if not (isinstance(rows, ast.ListComp) and len(rows.generators) == 1
-                and isinstance(rows.elt, ast.ListComp) and len(rows.elt.generators) == 1):
-            raise AnalysisError(
-                'Grid.subgrid rows are not a nested list comprehension: '
-                f'`{src(rows)[:100]}` (outside the grammar; freshness and order unknown)')
+        self.fresh_outer = True
         self.fresh_rows = True
         og, ig = rows.generators[0], rows.elt.generators[0]
         if og.ifs or ig.ifs or not isinstance(og.target, ast.Name) or \
